@@ -115,5 +115,20 @@ pub fn candidates(seed: u64) -> Vec<Value> {
         if cnf.iter().flat_map(|c| c.iter().map(|l| l.unsigned_abs())).max().unwrap_or(0) != 4 { continue; }
         out.push(json!({"case": "dnnf_cond", "nvars": 4, "cnf": cnf, "order": order, "neg": nx(2) == 0, "lbl": nx(4), "val": nx(2) == 0}));
     }
+    // larger formulas: 5-6 variables, 3-9 clauses of 1-3 literals (component caching and propagation chains get exercised)
+    for _ in 0..250 {
+        let nv = 5 + nx(2);
+        let ncl = 3 + nx(7);
+        let mut cnf = vec![];
+        for _ in 0..ncl {
+            let len = 1 + nx(3);
+            let cl: Vec<i64> = (0..len).map(|_| { let v = 1 + nx(nv) as i64; if nx(2) == 0 { v } else { -v } }).collect();
+            cnf.push(cl);
+        }
+        if cnf.iter().flat_map(|c| c.iter().map(|l| l.unsigned_abs())).max().unwrap_or(0) != nv { continue; }
+        let mut order: Vec<u64> = (0..nv).collect();
+        for i in (1..nv as usize).rev() { let j = nx(i as u64 + 1) as usize; order.swap(i, j); }
+        out.push(json!({"case": "dnnf_cond", "nvars": nv, "cnf": cnf, "order": order, "neg": nx(2) == 0, "lbl": nx(nv), "val": nx(2) == 0}));
+    }
     out
 }
